@@ -9,7 +9,7 @@ import gen
 import momentcheck as mc
 
 PROP = 'C02'
-TYPES = ['Mean', 'Variance', 'Skewness', 'Kurtosis', 'Moments4', 'M5', 'M6', 'M8', 'M10']
+TYPES = ['Mean', 'Variance', 'Skewness', 'Kurtosis', 'Moments4', 'M5', 'M6', 'M7', 'M8', 'M9', 'M10']
 RULE = ('A merge history = (composition of a sequence into k contiguous, possibly empty chunks) x (binary tree over the '
         'chunks) x (orientation l.merge(&r) / r.merge(&l) at each node). Exhaustive core: every history with k<=Kmax over '
         'short sequences (well-conditioned, offset 1e9, ties); sampled: random k<=12 with balanced / comb / one-vs-rest / '
@@ -271,7 +271,7 @@ def run(tier, seed):
                 [(1100, 1), (2100, 2), (4500, 1), (9000, 2), (13000, 3), (70000, 1), (140000, 2), (300000, 1)]
             for nbig, nsmall in ratios:
                 for typ in (TYPES if nbig <= 9000 or variant == 'release' else ['Mean', 'Kurtosis']):
-                    if nbig >= 70000 and typ in ('M8', 'M10', 'M5') and tier == 'quick':
+                    if nbig >= 70000 and typ in ('M8', 'M10', 'M5', 'M7', 'M9') and tier == 'quick':
                         continue
                     if nbig >= 140000 and tier == 'quick' and typ not in ('Mean', 'Variance', 'Kurtosis'):
                         continue
